@@ -13,12 +13,17 @@ from verif.core.runner import HarnessError, canon
 PROPERTY = 'C12'
 LEVEL = 'model_checking'
 EXHAUSTIVE = True
-RULE = ('History enumeration on the real Controller/ComponentState/Engine: case = (maxRestarts, restartHookFile, restartHookOn, '
-        'system-stability answer) x script. Scripts: every sequence over {ResourceExhausted, KnownIssue, SystemIssue, '
-        'SubmissionFailed as a failed launch, SubmissionFailed reported by a task object} up to length L (3 quick / 5 thorough) followed by every terminal reason {Success, Killed, Cancelled, '
+RULE = ('(A) History enumeration on the real Controller.postMortemCheck/_restartComponent/ComponentState.restart/Engine.restart path: '
+        'case = (maxRestarts, restartHookFile, restartHookOn incl. the empty list, shutdownOn, system-stability answer) x script. Scripts: '
+        'every sequence over {ResourceExhausted, KnownIssue, SystemIssue, SubmissionFailed as a failed launch, SubmissionFailed '
+        'reported by a task object} up to length L (3 quick / 5 thorough) followed by every terminal reason {Success, Killed, Cancelled, '
         'UnknownIssue, SystemIssue}, plus long runs X^k (k up to 8) and alternations that cross the 5-resubmission cap and '
         'maxRestarts=3; restart-hook answers: all-positive and every single deviation (one of 10 other answers at one position) '
-        'for scripts of length <=1 (quick) / <=3 (thorough). The monitor checks every relaunch against the policy of the statement. '
+        'for scripts of length <=1 (quick) / <=3 (thorough); after the final state one more restart request is issued (it must be '
+        'refused and launch nothing). (B) a repeating observer through the real controller stage loop: last execution x restarted '
+        'execution over {ResourceExhausted, KnownIssue, Success, SystemIssue} x {ResourceExhausted, Success, KnownIssue, restart '
+        'submission fails after 12 s} x retries x restartHookOn x maxRestarts. (C) an external kill at every scheduling step between '
+        'a restart and the exit of the restarted task. The monitor checks every relaunch against the policy of the statement. '
         'distinct = distinct (config, script, hook answers); non-trivial = script has >=1 non-terminal step.')
 ASSUMPTIONS = [
     'controlled-runtime assumptions of C01 (scripted task backend / clock / stability tracker); canonical schedule only: '
